@@ -26,6 +26,7 @@ def run(ctx):
     r_len(ctx, P)
     header_derivation(ctx, P)
     mutators(ctx, P)
+    header_freshness(ctx, P)
     stored_length_encoding(ctx, P)
     s2k_usage_tables(ctx, P)
     tag_tables(ctx, P)
@@ -142,6 +143,92 @@ def mutators(ctx, P):
         ok1, _ = must_pass(b, oks, vm) if vm else (False, None)
         ok2, _ = must_pass(b, oks, [i for i, _, _ in adj]) if adj else (False, None)
         ctx.check('%s:S05-3:paired:%s' % (P, nm), 'R-pair', 'every successful %s both mutates the vector and adjusts the length' % nm, ok1 and ok2, function=b.path)
+
+
+FIXED_WIDTH = re.compile(r'^(u8|u16|u32|u64|i8|i16|i32|i64|bool|\[u8; \d+\])$')
+LENGTH_INVARIANT = {   # reviewed: mutators that cannot change the serialised length
+    'packet::signature::types::Signature::unhashed_subpackets_sort_by': 'permutes the unhashed subpackets; the multiset of subpackets (hence the sum of their lengths) is unchanged',
+}
+
+
+def _self_mutations(b):
+    """[(block, field)] for direct stores to / mutable borrows of a field of `*self` (local 1)."""
+    out = []
+    for i, blk in enumerate(b.blocks):
+        if blk['c']:
+            continue
+        for st in blk['s']:
+            d = st['d']
+            if d['l'] == 1 and len(d['pr']) > 1 and d['pr'][0] == '*':
+                out.append((i, d['pr'][1]))
+            r_ = st['r']
+            if r_['k'] == 'ref' and r_.get('m') == 'mut' and r_['p']['l'] == 1 and len(r_['p']['pr']) > 1 and r_['p']['pr'][0] == '*':
+                out.append((i, r_['p']['pr'][1]))
+    return out
+
+
+def header_freshness(ctx, P):
+    """Every packet type keeps the header it was created/parsed with in a `packet_header` field, which `packet_header()` announces
+    and which derived equality compares.  A `&mut self` method that changes another field whose encoding is not of fixed width must
+    bring the stored length up to date on every path on which it succeeds (C05: `also after the object was modified through the
+    public API`)."""
+    f = ctx.f
+    ser = set(r['impl_self'] for r in f.bodies.values() if r.get('impl_trait', '').endswith('ser::Serialize') and r.get('name') == 'write_len')
+    hdr = {}
+    for ap, a in f.adts.items():
+        for v in a['vars']:
+            if any(fl['n'] == 'packet_header' for fl in v['fields']) and ap in ser:
+                hdr[ap] = {fl['n']: fl['ty'] for fl in v['fields']}
+    ctx.floor(P + ':S05-9:floor:types', 'serialisable packet types that store their packet header', len(hdr), 15)
+    # which &mut self methods refresh the header themselves
+    cand = {}
+    for p, r in sorted(f.bodies.items()):
+        if r.get('derived') or '::tests::' in p or r['kind'] == 'Closure' or r['nargs'] < 1 or r.get('impl_trait', '').endswith('ops::Drop'):
+            continue
+        m = re.match(r"&(?:'\w+ )?mut ([\w:]+)", r['locals'][1]['ty'])
+        if not m or m.group(1) not in hdr:
+            continue
+        cand[p] = (m.group(1), core.B(r))
+    def refresh_blocks(b, adt, depth=0):
+        out = [i for i, fl in _self_mutations(b) if fl.endswith('.packet_header')]
+        for i, t in b.calls():
+            res = t['f'].get('res') or t['f'].get('fn')
+            if res in cand and res != b.path and depth < 2 and t['args'] and has_origin(b.operand_origins(t['args'][0]), r'param:1$'):
+                cb = cand[res][1]
+                inner = refresh_blocks(cb, adt, depth + 1)
+                if inner and must_pass(cb, ok_exit_blocks(cb) or cb.returns(), inner)[0]:
+                    out.append(i)
+        return out
+    n = 0
+    for p, (adt, b) in sorted(cand.items()):
+        muts = [(i, fl) for i, fl in _self_mutations(b) if not fl.endswith('.packet_header')]
+        muts = [(i, fl) for i, fl in muts if not FIXED_WIDTH.match(hdr[adt].get(fl.split('.')[-1], '?'))]
+        if not muts:
+            ctx.functions.discard(p)
+            continue
+        n += 1
+        key = '%s:S05-9:header-fresh:%s' % (P, p)
+        desc = '%s changes %s and brings the stored packet length up to date on every successful path' % (p.split('::')[-1], sorted(set(fl.split('.')[-1] for _, fl in muts)))
+        if p in LENGTH_INVARIANT:
+            ctx.ok(key, 'R-pair', desc + ' — reviewed length-invariant: ' + LENGTH_INVARIANT[p], function=p)
+            continue
+        rb = refresh_blocks(b, adt)
+        oks = ok_exit_blocks(b) or b.returns()
+        bad = None
+        for i, fl in muts:
+            # from the mutation, an Ok exit must not be reachable without refreshing (a refresh that precedes the mutation in the same block chain counts only if it dominates the exit too)
+            w = b.find_path(i, set(oks), removed=frozenset(x for x in rb if x != i))
+            if w is not None and i not in rb:
+                ok_before, _ = must_pass(b, [i], rb) if rb else (False, None)
+                if not ok_before:
+                    bad = (fl, w)
+                    break
+        if bad is None:
+            ctx.ok(key, 'R-pair', desc, function=p, refresh=[site(b, x) for x in rb])
+        else:
+            ctx.violation(key, 'R-pair', desc, function=p, site=site(b, bad[1][0]), witness=fmt_path(b, bad[1]),
+                          missing='the stored packet_header keeps the old length after %s changed: packet_header() announces a length that is not what is written, and the object no longer equals its re-parsed copy' % bad[0].split('.')[-1])
+    ctx.floor(P + ':S05-9:floor:mutators', '&mut self methods of packet types that change a variable-width field', n, 6)
 
 
 def stored_length_encoding(ctx, P):
